@@ -80,6 +80,13 @@ template <size_t K, size_t MG> struct RunM {
         V("ctor.u32") { E x((uint32_t)a.at(0).get_ui()); o << elt(x); }
         V("ctor.i64") { E x((int64_t)a.at(0).get_si()); o << elt(x); }
         V("ctor.i32") { E x((int32_t)a.at(0).get_si()); o << elt(x); }
+        V("ctor.i16") { E x((int16_t)a.at(0).get_si()); o << elt(x); }
+        V("ctor.u16") { E x((uint16_t)a.at(0).get_ui()); o << elt(x); }
+        V("ctor.i8") { E x((signed char)a.at(0).get_si()); o << elt(x); }
+        V("ctor.u8") { E x((unsigned char)a.at(0).get_ui()); o << elt(x); }
+        V("ctor.ll") { E x((long long)a.at(0).get_si()); o << elt(x); }
+        V("ctor.ull") { E x((unsigned long long)a.at(0).get_ui()); o << elt(x); }
+        V("ctor.double") { E x((double)a.at(0).get_si()); o << elt(x); }
         V("ctor.rint") { RecInt::rint<K> s; from_mpz(s.Value, a.at(0)); E x(s); o << elt(x); }
         V("ctor.copy") { E y = raw(a, 0); E x(y); o << elt(x); }
         V("ctor.default") { E x; o << elt(x); }
@@ -98,6 +105,17 @@ template <size_t K, size_t MG> struct RunM {
         V("mul.alias") { r = raw(a, 0); mul(r, r, r); o << elt(r); }
         V("mul.T") { mul(r, raw(a, 0), (uint64_t)a.at(1).get_ui()); o << elt(r); }
         V("mul.Tin") { r = raw(a, 0); mul(r, (uint64_t)a.at(1).get_ui()); o << elt(r); }
+        V("mul.Ti") { mul(r, raw(a, 0), (int64_t)a.at(1).get_si()); o << elt(r); }
+        V("mul.Tiin") { r = raw(a, 0); mul(r, (int64_t)a.at(1).get_si()); o << elt(r); }
+        V("mul.opTi") { o << elt(raw(a, 0) * (int)a.at(1).get_si()); }
+        V("mul.opTil") { o << elt((long)a.at(1).get_si() * raw(a, 0)); }
+        V("add.Ti") { add(r, raw(a, 0), (int64_t)a.at(1).get_si()); o << elt(r); }
+        V("add.opTi") { r = raw(a, 0); r += (int)a.at(1).get_si(); o << elt(r); }
+        V("sub.Ti") { sub(r, raw(a, 0), (int64_t)a.at(1).get_si()); o << elt(r); }
+        V("sub.Timinus") { o << elt((int64_t)a.at(1).get_si() - raw(a, 0)); }
+        V("div.Ti") { div(r, raw(a, 0), (int64_t)a.at(1).get_si()); o << elt(r); }
+        V("addmul.Ti") { r = raw(a, 0); addmul(r, raw(a, 1), (int64_t)a.at(2).get_si()); o << elt(r); }
+        V("inv.Ti") { inv(r, (int64_t)a.at(0).get_si()); o << elt(r); }
         V("square.ab") { square(r, raw(a, 0)); o << elt(r); }
         V("square.a") { r = raw(a, 0); square(r); o << elt(r); }
         // ---- add / sub / neg
@@ -181,6 +199,14 @@ template <size_t K> struct RunK {
         V("R.ctor.assign") { F_t G(ruint<K>(3)); G = F; o << G.fields(); haveElt = false; }
         V("R.assign.mul") {           // a ring assigned from another one must compute like it
             F_t G(ruint<K>(3)); G = F; G.mul(r, x, y); E t; G.convert(t, r); o << hx(r) << " " << hx(t); haveElt = false;
+        }
+        V("R.assign.use") {           // init, inv, mul, add, convert on a ring that was ASSIGNED from F
+            F_t G(ruint<K>(5)); G = F; E u, w, t; G.init(u, x); G.inv(w, u); G.mulin(w, u); G.addin(w, u); G.convert(t, w);
+            G.inv(r, y); E t2; G.convert(t2, r); o << hx(w) << " " << hx(t) << " " << hx(r) << " " << hx(t2); haveElt = false;
+        }
+        V("R.copy.use") {             // the same on a COPY of F
+            F_t G(F); E u, w, t; G.init(u, x); G.inv(w, u); G.mulin(w, u); G.addin(w, u); G.convert(t, w);
+            G.inv(r, y); E t2; G.convert(t2, r); o << hx(w) << " " << hx(t) << " " << hx(r) << " " << hx(t2); haveElt = false;
         }
         V("R.reduc") { o << hx(F.x_reduc(x)); haveElt = false; }
         V("R.to_mg") { r = F.x_to_mg(x); }
